@@ -115,6 +115,7 @@ func main() {
 // coldPass: no sequential warm-up. 8 goroutines each build their own shared values and run every
 // operation; the sequential results are computed only afterwards.
 func coldPass(scope string) int {
+	scen.Cold = true
 	sc, ok := scen.ByScope(scope)
 	if !ok {
 		fmt.Println("vrace: unknown scope", scope)
